@@ -743,6 +743,16 @@ func (w *c17World) envEvent(r *vRand, helpful bool) {
 			w.setResv(rv)
 			h.Tag("env:resv-scheduled")
 			return
+		case rv != nil && rv.sched == 3 && ev == nil && r.Chance(1, 2):
+			rv.needPreempt, rv.phase = true, 2
+			w.setResv(rv)
+			w.preempt = 2
+			if r.Chance(1, 4) {
+				w.preempt = r.Range(1, 3)
+			}
+			h.Op("preempt %d", w.preempt)
+			h.Tag("env:preempt")
+			return
 		case ev != nil && ev.Status == sev1alpha1.PodMigrationJobConditionStatusFalse && pod != nil:
 			w.setPod(nil)
 			h.Tag("env:pod-deleted")
@@ -968,22 +978,28 @@ func TestVerifC17(t *testing.T) {
 			}
 		case k < 18 && podRefValid:
 			st.Phase = sev1alpha1.PodMigrationJobRunning
+			// conditions a live job can carry (as the controller writes them).  Never ReservationScheduled=True /
+			// Status.NodeName (they record a same-node check made against an environment this history does not
+			// know) and never PodBoundReservation=True / PodScheduled=True (only written together with Succeeded).
+			type tc struct {
+				t      int
+				st     bool
+				reason string
+				msg    int
+			}
+			menu := []tc{{1, true, "", 0}, {1, false, sev1alpha1.PodMigrationJobReasonFailedCreateReservation, 0},
+				{2, false, sev1alpha1.PodMigrationJobReasonUnschedulable, r.Range(0, 3)},
+				{4, false, sev1alpha1.PodMigrationJobReasonEvicting, 0}, {4, true, sev1alpha1.PodMigrationJobReasonEvictComplete, 0},
+				{5, false, sev1alpha1.PodMigrationJobReasonUnschedulable, r.Range(0, 3)},
+				{6, false, sev1alpha1.PodMigrationJobReasonWaitForPodBindReservation, 0}, {8, true, "", 0},
+				{7, false, sev1alpha1.PodMigrationJobReasonWaitForBoundPodReady, 0}, {7, true, "", 0}}
 			nc := r.Range(0, 3)
 			for i := 0; i < nc; i++ {
-				c := sev1alpha1.PodMigrationJobCondition{Type: c17CondTypeOf(r.Range(1, 8)), Status: sev1alpha1.PodMigrationJobConditionStatusFalse}
-				if r.Bool() {
+				m := menu[r.Intn(len(menu))]
+				c := sev1alpha1.PodMigrationJobCondition{Type: c17CondTypeOf(m.t), Status: sev1alpha1.PodMigrationJobConditionStatusFalse,
+					Reason: m.reason, Message: c17Name("m", m.msg)}
+				if m.st {
 					c.Status = sev1alpha1.PodMigrationJobConditionStatusTrue
-				}
-				switch c.Type { // well-formed reasons, as the controller writes them
-				case sev1alpha1.PodMigrationJobConditionEviction:
-					c.Reason = sev1alpha1.PodMigrationJobReasonEvicting
-					if c.Status == sev1alpha1.PodMigrationJobConditionStatusTrue {
-						c.Reason = sev1alpha1.PodMigrationJobReasonEvictComplete
-					}
-				case sev1alpha1.PodMigrationJobConditionReservationScheduled:
-					if c.Status == sev1alpha1.PodMigrationJobConditionStatusFalse {
-						c.Reason, c.Message = sev1alpha1.PodMigrationJobReasonUnschedulable, c17Name("m", r.Range(0, 3))
-					}
 				}
 				if _, old := utilGetCond(&st, c.Type); old == nil {
 					st.Conditions = append(st.Conditions, c)
@@ -992,9 +1008,6 @@ func TestVerifC17(t *testing.T) {
 			if len(st.Conditions) > 0 {
 				st.Status = string(st.Conditions[len(st.Conditions)-1].Type)
 				st.Reason = st.Conditions[len(st.Conditions)-1].Reason
-			}
-			if r.Chance(1, 3) {
-				st.NodeName = c17Name("n", r.Range(1, 3))
 			}
 		case podRefValid:
 			st.Phase = c17Phases[r.Range(3, 5)]
